@@ -9,7 +9,7 @@ From RecordUpdate Require Import RecordSet.
 Import RecordSetNotations.
 From EV Require Import Base.Str Model.Value Model.Keyspace Model.Reply Model.Prog Model.Dispatch.
 From EV Require Import Model.Resp Model.Disk.
-From EV Require Import Model.TableTypes Gen.CmdTable.
+From EV Require Import Model.TableTypes Gen.CmdTable Model.SnapCodec.
 Local Open Scope Z_scope.
 
 Inductive policy := Always | EverySec | NoSync.
@@ -146,3 +146,116 @@ Definition rewrite_steps (s : state) (pre : pre_file) (a : aof) : list (string *
    ("log.trunc.after_sync", PreFull snap, f_sync (f_write empty_file hdr))].
 Definition rewrite_final (s : state) (a : aof) : pre_file * aof :=
   (PreFull (snapshot_of s), Aof (f_sync (f_write empty_file (trunc_header (a_cur a)))) (a_cur a)).
+
+(** * The rewrite as repaired (fixes/fix-c09-atomic-rewrite.diff)
+    Rewrites are numbered.  The new preamble carries the number of its rewrite and is written to
+    [preamble.bin.tmp], synced, closed and renamed over [preamble.bin] (then the directory is synced);
+    the log is truncated afterwards and gets a first record [GENERATION <n>] with the same number, before
+    the SELECT header.  [Engine.Restore] reads the preamble, then compares: a log whose number is smaller
+    than the preamble's is the log of the previous generation, left by a crash between the rename and
+    the truncation; the preamble covers all of it, so it is not replayed and the interrupted truncation
+    is completed.  Files written before the repair carry no number (generation 0) and restore as before.
+
+    Nothing above this line was changed; [replay_values] hands a GENERATION record to [exec_db], which
+    knows no such command and leaves the state as it is (the Go loop skips the record: same effect;
+    lemma [replay_generation] in Proofs/AofRewriteProofs.v). *)
+Definition gen_text (g : Z) : string := of_chars (show_len (Z.to_nat g)).
+Definition gen_cmd (g : Z) : list string := ["GENERATION"; gen_text g].
+Definition gen_marker (g : Z) : bytes := encode_cmd (gen_cmd g).
+
+(** [generationOf]: the number in a generation marker, 0 for any other value. *)
+Definition gen_of_value (v : rv) : Z :=
+  match cmd_of_value v with
+  | [w; n] => if eq_fold w "generation"
+              then match parse_int n with Some z => Z.max 0 z | None => 0 end else 0
+  | _ => 0
+  end.
+(** The number of a log: that of its first value (none, torn or malformed: 0). *)
+Definition log_gen (log : bytes) : Z :=
+  match read_top log with Ok v _ => gen_of_value v | _ => 0 end.
+Definition stale (g : Z) (log : bytes) : bool := log_gen log <? g.
+
+(** [Engine.Restore] when the preamble read back as [pre] with number [g]. *)
+Definition restore_pg (now : Z) (pre : pre_file) (g : Z) (log : bytes) : state :=
+  restore now pre (if stale g log then [] else log).
+(** The log file after that restore: a stale log has been truncated and numbered (no database is
+    current in a process that has just started), otherwise a torn last record has been dropped. *)
+Definition recovered_pg (pre : pre_file) (g : Z) (log : bytes) : file :=
+  match pre with
+  | PreTorn => f_of_bytes log
+  | _ => if stale g log then f_sync (f_write empty_file (gen_marker g)) else f_of_bytes (recovered_log log)
+  end.
+
+(** [Store.truncate] after [Truncate(0)]: number, SELECT header, sync. *)
+Definition hdr_ops (g cur : Z) : list fop :=
+  (if 0 <? g then [OpWrite (gen_marker g)] else []) ++
+  (if cur <? 0 then [] else [OpWrite (select_marker cur)]) ++ [OpSync].
+
+(** preamble.bin as [json.Unmarshal] sees it: nothing, a strict prefix of a document (rejected), or a
+    document with its number (0: the bare map of a file written before the repair). *)
+Inductive pfile := PfEmpty | PfTorn | PfDoc (gen : Z) (j : jstate).
+(** preamble.bin.tmp: absent, being written, complete.  Restore never looks at it. *)
+Inductive tfile := TNone | TPart | TFull.
+Record adir := ADir { d_pre : pfile; d_tmp : tfile; d_log : file }.
+
+Section repaired.
+Variable c : codec.
+
+(** [preamble.Store.Restore]: the decoded dataset and the number. *)
+Definition pf_read (p : pfile) : pre_file * Z :=
+  match p with
+  | PfEmpty => (PreEmpty, 0)
+  | PfTorn => (PreTorn, 0)
+  | PfDoc g j => match dec_state c j with Some snap => (PreFull snap, g) | None => (PreTorn, 0) end
+  end.
+Definition restore_g (now : Z) (p : pfile) (log : bytes) : state :=
+  restore_pg now (pf_read p).1 (pf_read p).2 log.
+Definition recovered_g (p : pfile) (log : bytes) : file :=
+  recovered_pg (pf_read p).1 (pf_read p).2 log.
+
+(** What [CreatePreamble] writes: [json.Marshal(file{Generation, State})] of the filtered state copy. *)
+Definition preamble_of (s : state) : jstate := enc_state c (snapshot_of s).
+
+(** Every state of the directory that exists at some instant of [RewriteLog] (the server holds the
+    command lock: no write runs meanwhile), in order.  [g] is the number the preamble store holds,
+    [t0] whatever an earlier crash left of the temporary file:
+    state copied | temporary file created / truncated, being written | written, synced, closed |
+    renamed over preamble.bin, directory synced, file reopened, number handed to the log store |
+    log truncated, then every instant of the header writes (each cut at every byte) and the sync. *)
+Definition rewrite_instants (s : state) (g : Z) (t0 : tfile) (p : pfile) (a : aof) : list adir :=
+  let doc := PfDoc (g + 1) (preamble_of s) in
+  [ADir p t0 (a_log a); ADir p TPart (a_log a); ADir p TFull (a_log a); ADir doc TNone (a_log a)] ++
+  map (ADir doc TNone) (op_instants empty_file (hdr_ops (g + 1) (a_cur a))).
+Definition rewrite_done (s : state) (g : Z) (a : aof) : adir * aof * Z :=
+  let f := apply_ops empty_file (hdr_ops (g + 1) (a_cur a)) in
+  (ADir (PfDoc (g + 1) (preamble_of s)) TNone f, Aof f (a_cur a), g + 1).
+
+(** What a crash leaves of a directory: the preamble file as it is (the temporary file was synced
+    before the rename and the directory after it: assumption on rename, see Disk.v), the log as
+    [death_image] / [power_images] say. *)
+Definition dir_death (x : adir) : pfile * bytes := (d_pre x, death_image (d_log x)).
+Definition dir_power (x : adir) : list (pfile * bytes) := map (fun b => (d_pre x, b)) (power_images (d_log x)).
+
+(** ** The server over a history of acknowledged writes, completed rewrites and restarts *)
+Inductive ev :=
+| EvWrite (d : Z) (argv : list string)   (* an acknowledged (hence logged) write by a caller on database [d] *)
+| EvRewrite                              (* a completed REWRITEAOF *)
+| EvRestart.                             (* the process stops between two commands (shutdown or death) and starts again *)
+Record srv := Srv { v_st : state; v_pre : pfile; v_tmp : tfile; v_aof : aof; v_gen : Z }.
+Definition srv_init (now : Z) : srv := Srv (init_state now) PfEmpty TNone aof_fresh 0.
+(** A process that starts on a directory whose files read [p] and [log]. *)
+Definition srv_start (now : Z) (p : pfile) (t : tfile) (log : bytes) : srv :=
+  Srv (restore_g now p log) p t (Aof (recovered_g p log) (-1)) (pf_read p).2.
+Definition srv_step (pol : policy) (now : Z) (v : srv) (e : ev) : srv :=
+  match e with
+  | EvWrite d argv =>
+      Srv (fst (exec_db (v_st v) d argv)) (v_pre v) (v_tmp v) (aof_write pol (v_aof v) d argv) (v_gen v)
+  | EvRewrite =>
+      let '(x, a, g) := rewrite_done (v_st v) (v_gen v) (v_aof v) in Srv (v_st v) (d_pre x) (d_tmp x) a g
+  | EvRestart => srv_start now (v_pre v) (v_tmp v) (f_all (a_log (v_aof v)))
+  end.
+Definition srv_run (pol : policy) (now : Z) (v : srv) (es : list ev) : srv := fold_left (srv_step pol now) es v.
+(** The dataset the writes of a history build, with no persistence at all. *)
+Definition ev_writes (es : list ev) : list (Z * list string) :=
+  flat_map (fun e => match e with EvWrite d c => [(d, c)] | _ => [] end) es.
+End repaired.
